@@ -187,6 +187,8 @@ def _del_var(world, j):
         p[k] = [[row[i] for i in keep] for row in p[k]]
     if p.get("dom"):
         p["dom"] = {"w": [p["dom"]["w"][i] for i in keep], "lo": [p["dom"]["lo"][i] for i in keep]}
+    if p.get("expo"):
+        p["expo"] = {"k": [p["expo"]["k"][i] for i in keep], "s": [p["expo"]["s"][i] for i in keep]}
     p["n"] = n - 1
     w["x0"] = [w["x0"][i] for i in keep]
     sc = w["params"].get("scaling")
